@@ -29,7 +29,10 @@ def special_two_qubit(rng, n_random=6):
     e = 1e-9
     coeffs = [(0, 0, 0), (PI / 4, 0, 0), (PI / 4, PI / 4, 0), (PI / 4, PI / 4, PI / 4), (PI / 4, PI / 4, -PI / 4), (PI / 8, 0, 0), (PI / 8, PI / 8, 0), (PI / 8, PI / 8, PI / 8),
               (PI / 8, PI / 8, -PI / 8), (PI / 4, PI / 8, PI / 8), (PI / 4, PI / 8, -PI / 8), (PI / 4, PI / 8, 0), (0.3, 0.2, 0.1), (0.3, 0.2, -0.1), (0.3, 0.3, 0.1), (0.3, 0.1, 0.1),
-              (PI / 4 - e, 0, 0), (PI / 4 + e, 0, 0), (e, 0, 0), (PI / 4, PI / 4 - e, e), (PI / 8 + e, PI / 8, 0), (PI / 4, e, -e), (0.5, 0.7, 1.9), (-0.2, 2.0, 0.9), (PI / 2, 0, 0), (PI / 3, PI / 3, PI / 3)]
+              (PI / 4 - e, 0, 0), (PI / 4 + e, 0, 0), (e, 0, 0), (PI / 4, PI / 4 - e, e), (PI / 8 + e, PI / 8, 0), (PI / 4, e, -e), (0.5, 0.7, 1.9), (-0.2, 2.0, 0.9), (PI / 2, 0, 0), (PI / 3, PI / 3, PI / 3),
+              # at an intermediate distance from a special class (where a loose threshold would snap to the class and drop the rest)
+              (PI / 4, PI / 4, 0.01), (PI / 4, PI / 4, -0.03), (PI / 4, PI / 4 - 0.004, 0.002), (PI / 8 + 1e-4, PI / 8, 0), (PI / 8, PI / 8 - 3e-5, 1e-5), (1e-4, 0, 0), (PI / 4 - 1e-4, 0, 0),
+              (PI / 4, PI / 4, PI / 4 - 1e-3)]
     named = [np.eye(4), cirq.unitary(cirq.CNOT), cirq.unitary(cirq.CZ), cirq.unitary(cirq.ISWAP), cirq.unitary(cirq.SWAP), cirq.unitary(cirq.SQRT_ISWAP), cirq.unitary(cirq.SQRT_ISWAP_INV),
              cirq.unitary(cirq.CZ ** 0.5), cirq.unitary(cirq.CZ ** 1e-9), cirq.unitary(cirq.FSimGate(PI / 2, PI / 6)), cirq.unitary(cirq.FSimGate(PI / 4, PI)), cirq.unitary(cirq.XX ** 0.5),
              cirq.unitary(cirq.ZZ ** 0.25), cirq.unitary(cirq.CNOT) @ np.kron(cirq.unitary(cirq.H), np.eye(2)), np.kron(cirq.unitary(cirq.H), cirq.unitary(cirq.T)), np.diag([1, 1j, -1, -1j]),
@@ -500,6 +503,15 @@ def standin_more_routines(tier, seed):
     diag_inputs = [np.kron(np.eye(2), cirq.unitary(cirq.Z ** 0.3)), np.kron(cirq.unitary(cirq.T), cirq.unitary(cirq.S)), np.diag(np.exp(1j * np.array([0.1, 0.7, -0.4, 1.3]))),
                    np.kron(cirq.unitary(cirq.Z ** 0.3), np.eye(2)), np.diag([1, 1j, 1, 1j]), np.diag([1, 1, 1j, 1j])]
     two = two + [("diagonal", d) for d in diag_inputs] + [("diagonal then random local", np.kron(cirq.testing.random_unitary(2, random_state=3), np.eye(2)) @ d) for d in diag_inputs[:3]]
+    # one fixed input, reported under its own name: a WEAK interaction with three non-zero coefficients (the diagonal is not extracted, a third CZ is spent)
+    R.cases += 1
+    weak = _xx(3e-5, 2e-5, -1e-5)
+    try:
+        d_w, ops_w = cirq.two_qubit_matrix_to_diagonal_and_cz_operations(q0, q1, weak)
+        if sum(1 for o in ops_w if len(o.qubits) == 2) > 2:
+            R.bad("two_qubit_matrix_to_diagonal_and_cz_operations spends a third CZ on a weak three-coefficient interaction", interaction_coefficients=(3e-5, 2e-5, -1e-5), two_qubit_gates=sum(1 for o in ops_w if len(o.qubits) == 2))
+    except Exception as ex:
+        R.bad(f"two_qubit_matrix_to_diagonal_and_cz_operations raised {type(ex).__name__}", matrix=weak)
     for label, u in two:
         for partial in (False, True):
             for clean in (True, False):
